@@ -26,9 +26,9 @@ CHECKS = {
    note='Both generators share one model (they differ only in transition rendering, which no result observes); the tie of each generator to that model is K2. Stack usage is supported by structure scan + small-stack runs, not proved (partial).'),
  'C07': dict(
    technique='Coq proof (structural induction over the prefix) of prefix safety for every graph + promptness certificate + differential run of partial vs one-shot lexers on every split',
-   text='Theorems C07_next_prefix_safe, C07_next_prefix_none (closed, no certificate needed): for every graph, input w and split k, an item the partial lexer yields over w[..k] (after the same skipped regions) is exactly what the ordinary lexer yields over w, and at None the reported empty span s..s is where the ordinary lexer continues. Promptness: boolean certificate prompt_ok (determined pairs do not return None, or one byte later) evaluated on every paired state of every accepted definition. Real partial lexers are run on every prefix of generated inputs against the real one-shot lexer (the property\'s own oracle) and the model. Finding F1 was re-found by this check and fixed (known_findings.txt).',
+   text='Theorems C07_next_prefix_safe, C07_next_prefix_none (closed, no certificate needed): for every graph, input w and split k, an item the partial lexer yields over w[..k] (after the same skipped regions) is exactly what the ordinary lexer yields over w, and at None the reported empty span s..s is where the ordinary lexer continues. Promptness: C07_determined_scan (in a determined DFA state the recorded match is the same for every continuation) and C07_prompt_one_byte / C07_no_test_acts (under the certificate prompt_ok a determined state acts at the end of the buffer, or every state one byte further does), with prompt_ok evaluated on every paired state of every accepted definition. Real partial lexers are run on every prefix of generated inputs against the real one-shot lexer (the property\'s own oracle) and the model. Finding F1 was re-found by this check and fixed (known_findings.txt).',
    design='DESIGN.md sections 7 (C07), 9 (F1)',
-   note='Promptness Prop-level reading of prompt_ok is not a Coq theorem yet (safety half is fully proved); chunk schedules follow from the per-call theorems by iteration. Callbacks bumping past the prefix panic in real code (outside the theorem).'),
+   note='The converse of promptness (a state that waits is not determined) is not stated; chunk schedules follow from the per-call theorems by iteration. Callbacks bumping past the prefix panic in real code (outside the theorem).'),
  'C20': dict(
    technique='Coq proof (induction over visits; sorted-log composition lemmas) on the read log of the emitted per-state program + exact trace correspondence through the read hook',
    text='Theorem C20_reads_monotone_linear (closed): for every graph, unroll factor >= 1, mode and input, the offsets read within one attempt never decrease, none precedes the attempt start, and #reads <= 3 * (offsets examined), independent of the graph. With C06_opt_is_ref the log belongs to the program that computes the reference semantics. The real read trace (hook in Lexer::read, next and trivia) of both generators equals the model log exactly on all probes, and the bound / monotonicity / restart-at-item-end are also checked directly on the real traces.',
